@@ -57,6 +57,8 @@ def r_default_inputs(c):
             raised = False
         except ValueError:
             raised = True
+        except RuntimeError:
+            raised = "late"
         if raised != overlap:
             return dict(reproduced=True, why=[f"defaulted call {'rejected' if raised else 'accepted'} although the default sets {'overlap' if overlap else 'do not overlap'}"])
         if raised:
